@@ -27,6 +27,16 @@ def bcLt (a b : Broadcast) : Bool :=
 
 def probe : List Nat := [1, 2, 3, 4, 5, 6, 7, 8, 9, 99]
 
+/-- every address a case mentions (plus the fixed probe set): the addresses the property is
+judged over -/
+def addrUniverse (evs : List Ev) : List Nat :=
+  let mentioned := evs.flatMap (fun e => match e with
+    | .connected p fails => p.addr :: fails
+    | .addPeers ps => ps.map (·.addr)
+    | .disconnected p => [p.addr]
+    | .gossip es => es.flatMap (fun en => en.claimed :: (match en.connect with | some q => [q.addr] | none => [])))
+  (probe ++ mentioned).eraseDups
+
 def stepJson (v : View) (o : Out) : Json :=
   mkObj [("providers", Json.arr ((sortPeers v.providers).map peerJson).toArray),
     ("bidders", Json.arr ((sortPeers v.bidders).map peerJson).toArray),
@@ -38,6 +48,7 @@ def stepJson (v : View) (o : Out) : Json :=
 /-- the property judged on the implementation's observations, step by step, against the
     history-defined view (`inViewF`) -/
 def specOk (evs : List Ev) (steps : Array Json) : Bool × String := Id.run do
+  let univ := addrUniverse evs
   let mut atoms : List Spec.C15.Atom := []
   let mut i := 0
   -- the view the spec itself derives from the history (used for "who is a known provider/bidder")
@@ -52,13 +63,16 @@ def specOk (evs : List Ev) (steps : Array Json) : Bool × String := Id.run do
     -- reported sets = peers whose latest atom is an addition
     let provs := (jarr s "providers").toList.map peerOf
     let bids := (jarr s "bidders").toList.map peerOf
-    for a in probe do
+    for a in univ do
       let inP := Spec.C15.inViewF false atoms a roleProvider
       let inB := Spec.C15.inViewF false atoms a roleBidder
       if (provs.any (·.addr == a)) != inP || (bids.any (·.addr == a)) != inB then
         return (false, "reported-set-differs-from-connect-disconnect-history")
-      if ((natArr s "connected").contains a) != (inP || inB) then
+      -- the harness asks IsConnected for the probe set only
+      if probe.contains a && ((natArr s "connected").contains a) != (inP || inB) then
         return (false, "isconnected-differs-from-history")
+    if (provs ++ bids).any (fun q => !univ.contains q.addr) then
+      return (false, "reported-set-differs-from-connect-disconnect-history")
     if provs.any (·.role != roleProvider) || bids.any (·.role != roleBidder) then
       return (false, "peer-reported-under-wrong-role")
     match e with
@@ -78,12 +92,12 @@ def specOk (evs : List Ev) (steps : Array Json) : Bool × String := Id.run do
             return (false, "announcement-to-wrong-recipient-or-content")
       -- completeness
       let bcs := (jarr s "broadcasts").toList
-      let others := probe.filter (fun a => a != p.addr && known a roleProvider && !fails.contains a)
+      let others := univ.filter (fun a => a != p.addr && known a roleProvider && !fails.contains a)
       if !others.isEmpty then
         if !(bcs.any (fun b => peerOf (jobj b "to") == p && sortNat (natArr b "records") == sortNat others)) then
           return (false, "newcomer-not-sent-all-other-providers")
       if p.role == roleProvider && !fails.contains p.addr then
-        for a in probe do
+        for a in univ do
           if known a roleBidder && !(a == p.addr && false) then
             if !(bcs.any (fun b => (peerOf (jobj b "to")).addr == a && (peerOf (jobj b "to")).role == roleBidder && natArr b "records" == [p.addr])) then
               return (false, "known-bidder-not-sent-new-provider")
